@@ -72,6 +72,7 @@ static void m_reset(void) {
         _exit(2);
     }
     T_live = 1;
+    g_probe_tbl = g_probe ? &T : NULL;
 }
 
 static bool m_enabled(int op) {
@@ -110,7 +111,12 @@ static void m_apply(int op) {
     m_opname(op, g_opbuf, sizeof(g_opbuf));
     op_begin(g_opbuf);
     stat_table_before(&T);
-    void *key = &KO[d.k][d.t];
+    /* bulk removal runs the destructors while the slots of entries already destroyed are still in place: a lookup from inside is
+     * not something the library supports there (it reads released nodes on the unchanged tree), so the probe is limited to
+     * single-entry displacements: overwrite, eviction, remove */
+    g_probe_tbl = (g_probe && d.kind != K_CLEAR) ? &T : NULL;
+    if (d.k == g_null_k) d.t = 0; /* NULL has no twin */
+    void *key = kptr(d.k, d.t);
     int i = d.kind == K_CLEAR ? -1 : ref_find(d.k);
     switch (d.kind) {
         case K_PUT: {
@@ -193,6 +199,7 @@ static void m_teardown(void) {
     if (!T_live) return;
     T_live = 0;
     if (esx_failed) return; /* the object may be damaged; galloc_reset() reclaims everything */
+    g_probe_tbl = NULL; /* no lookups in a table that is being dismantled */
     op_begin("clean_up");
     for (int i = 0; i < nR; ++i) expect_displaced(R[i]);
     aws_linked_hash_table_clean_up(&T);
@@ -209,11 +216,13 @@ struct cfg {
     size_t init; /* initial_item_count */
     int nk, nv;  /* alphabet */
     int quick;   /* part of the quick tier */
+    int nullk;   /* key k0 is passed as a NULL pointer */
+    int probe;   /* the value destructor looks keys up (c18_common.h) */
 };
 /* The collision modes multiply the state count by the number of reachable slot layouts (x20 for four colliding keys), so
  * they run with two values; the spread mode runs the full alphabet. */
 static const struct cfg cfgs[] = {
-    {0, 0, 1, 4, 3, 1}, {3, 0, 1, 4, 3, 1}, {3, 1, 1, 3, 2, 1},
+    {0, 0, 1, 4, 3, 1}, {3, 0, 1, 4, 3, 1}, {3, 1, 1, 3, 2, 1}, {3, 0, 1, 4, 3, 1, 1}, {3, 1, 1, 3, 2, 0, 1}, {3, 0, 1, 4, 3, 1, 0, 1}, {2, 1, 1, 3, 2, 0, 0, 1},
     {1, 0, 1, 4, 3, 0}, {2, 0, 1, 4, 3, 0},
     {0, 0, 8, 4, 3, 0}, {3, 0, 8, 4, 3, 0},
     {0, 1, 1, 4, 2, 0}, {3, 1, 1, 4, 2, 0}, {3, 1, 8, 3, 3, 0}, {3, 2, 1, 4, 2, 0}, {1, 2, 1, 3, 3, 0},
@@ -231,7 +240,9 @@ int main(int argc, char **argv) {
         g_init_count = cfgs[c].init;
         g_nk = cfgs[c].nk;
         g_nv = cfgs[c].nv;
-        snprintf(g_name, sizeof(g_name), "lht-d%s-h%d-i%zu-k%dv%d", dname[cfgs[c].dm], g_hmode, g_init_count, g_nk, g_nv);
+        g_null_k = cfgs[c].nullk ? 0 : -1;
+        g_probe = cfgs[c].probe;
+        snprintf(g_name, sizeof(g_name), "lht-d%s-h%d-i%zu-k%dv%d%s", dname[cfgs[c].dm], g_hmode, g_init_count, g_nk, g_nv, cfgs[c].nullk ? "-nullk" : cfgs[c].probe ? "-probe" : "");
         model.name = g_name;
         build_ops();
         model.nops = nops;
